@@ -177,6 +177,8 @@ def run_same_address(rnd, n):
                 objs = []
                 for _ in range(2):
                     c = clean_case(rnd, rnd.choice(kinds)); c["id"] = "%06x" % rnd.randrange(1 << 24); c["key"] = "%02x" % rnd.randrange(256)
+                    while objs and (c["key"] == objs[0][0]["key"] or c["id"] == objs[0][0]["id"]):          # DIFFERENT ids and keys: a connection is attributed by the credential it carries (FA15)
+                        c["id"] = "%06x" % rnd.randrange(1 << 24); c["key"] = "%02x" % rnd.randrange(256)
                     objs.append((c, (world.SwitcherType2Api if t2 else world.SwitcherType1Api)(ip, c["id"], c["key"])))
                 for _, api in objs: await asyncio.wait_for(api.connect(), 10)
                 async def one(c, api):
